@@ -164,6 +164,12 @@ def bracket_lexer(stream):
                 whitespacebuf = StringIO()
             tokenbuf.write(character)
         character = stream.read(1)
+    # end of input: hand out what is still pending (a file need not end
+    # in a newline)
+    if len(tokenbuf.getvalue()) > 0:
+        yield tokenbuf.getvalue(), "TOKEN"
+    if len(whitespacebuf.getvalue()) > 0:
+        yield whitespacebuf.getvalue(), "WS"
 
 
 def brackets(in_file, in_encoding, **params):
